@@ -163,7 +163,9 @@ P = {
          'step RESOLVES its pair (all arms): a reported point is the ONLY common point (C16_reported_point_is_the_only_common_point); '
          'afterwards the sub-segments still starting at the two left events have no common point other than end points of both '
          '(C16_crossing_is_resolved), for overlapping segments of different operands they meet at end points or coincide completely '
-         '(C16_overlap_is_resolved). The '
+         '(C16_overlap_is_resolved); in one statement for every answer of the kernel in a store of a valid sweep: C16_every_tested_pair_is_resolved. '
+         'The footprint of the step, EVERY instance: no point moves, no link other than those of the two events, their partners and the new '
+         'events changes (C16_step_footprint). The '
          'typing of coincident pieces is proved for pieces with a common left end (C16_coincident_pieces_are_typed: answer 2, NonContributing / '
          'Same- or DifferentTransition by the in/out flags). possible_intersection is tied to the '
          'model exhaustively on the lattice (43 200 configurations) and on float pairs; all clauses checked against exact rational '
